@@ -1,20 +1,25 @@
 """C07 — active-object publish/subscribe works in every configuration (DESIGN §8)."""
-import pubsub_corr, conc_corr
+import pubsub_corr, conc_corr, fabric_corr
 
 
 def explore(run, lean):
     pubsub_corr.explore(run, 48 if run.tier == "quick" else 10 ** 6)
     pubsub_corr.explore_position(run, focus="C07")
     conc_corr.explore_live(run, "C07", 20 if run.tier == "quick" else 400)
+    fabric_corr.explore_number_subscription_race(run, "C07", 40 if run.tier == "quick" else 1200)
     run.extra["rule"] = ("(a) configuration space: subscriber spied/un-spied x subscribe before start / after start from outside / "
                          "from its own handler x fifo/lifo x 0-2 other active objects already subscribed x publisher spied/un-spied x "
                          "publish before start / outside / own handler = 216 configurations (quick: a seeded sample of 48, thorough: all); "
                          "each is run on real ActiveObjects under the deterministic scheduler to quiescence and compared with the "
                          "outcome predicted by the Lean decision-logic model; (b) delivery to an object that has other events pending (stopped object, "
                          "X1 and X2 posted, then PING published): 18 ways of subscribing (fifo / lifo / both) plus small capacities")
+    ROUND6_RULE = '; subscriptions given as a signal number racing the registration of new signal names (bytecode level)'
+    run.extra["rule"] += ROUND6_RULE
 
 
 def replay(case):
+    if case.get("case", case).get("what") == "number-subscription-race":
+        return fabric_corr.replay(case)
     if "scenario" in case.get("case", case):
         return conc_corr.replay(case)
     return pubsub_corr.replay(case)
